@@ -636,4 +636,78 @@ def heavyOps (n : Nat) (sops : List String) : G (List String) := do
           out := out ++ [s!"pos position fen {Spec.toFen P 0 1}"] ++ sops
   return out
 
+/-- SPECIAL MOVES THAT GIVE CHECK, followed by `chk` / `gen` on the GENERATED successor (a board that
+    carries a move descriptor): castling whose rook gives check (enemy king on every square), and en
+    passant captures that uncover a line through the square of the captured pawn or of the capturing
+    pawn (slider and enemy king on every pair of squares of every such line); both colours.
+    Only items for which the SPEC says "legal position, legal move, check afterwards" are kept, plus
+    every 5th non-checking one as a control. -/
+def chkMoveOps (stride : Nat) (perItem : List String) : G (List String) := do
+  let mut out : List String := []
+  let mut idx := 0
+  let empty : Spec.Position :=
+    { cells := Array.replicate 64 none, side := .white, wks := false, wqs := false, bks := false, bqs := false, ep := none }
+  let emit (P : Spec.Position) (m : Spec.Move) (keepQuiet : Bool) : List String :=
+    if Spec.LegalPosition P && Spec.legal P m then
+      let Q := Spec.apply P m
+      if Spec.inCheck Q Q.side || keepQuiet then
+        [fenLine P 0 1, s!"pick {Spec.moveText m}"] ++ perItem
+      else []
+    else []
+  -- (A) castling with check
+  for c in [Color.white, Color.black] do
+    let hr := Spec.homeRank c
+    for ks in [true, false] do
+      for ekr in [0:8] do
+        for ekf in [0:8] do
+          let rf := if ks then 7 else 0
+          let base := { empty with side := c, wks := c == Color.white && ks, wqs := c == Color.white && !ks,
+                                   bks := c == Color.black && ks, bqs := c == Color.black && !ks }
+          let base := (base.put ⟨4, hr⟩ (some ⟨c, .king⟩)).put ⟨rf, hr⟩ (some ⟨c, .rook⟩)
+          if (base.at ⟨ekf, ekr⟩).isNone then
+            let P := base.put ⟨ekf, ekr⟩ (some ⟨c.opp, .king⟩)
+            let m : Spec.Move := ⟨⟨4, hr⟩, ⟨if ks then 6 else 2, hr⟩, none⟩
+            idx := idx + 1
+            out := out ++ emit P m (idx % 5 == 0)
+  -- (B) en passant uncovering a line
+  let dirs : List (Int × Int) := [(1, 0), (-1, 0), (0, 1), (0, -1), (1, 1), (1, -1), (-1, 1), (-1, -1)]
+  for c in [Color.white, Color.black] do
+    let r5 : Nat := if c == Color.white then 4 else 3
+    let r6 : Nat := if c == Color.white then 5 else 2
+    for f in [1, 4, 6] do
+      for side in [true, false] do
+        let vf : Nat := if side then f + 1 else f - 1
+        let o : Spec.Sq := ⟨f, r5⟩
+        let v : Spec.Sq := ⟨vf, r5⟩
+        let tgt : Spec.Sq := ⟨vf, r6⟩
+        let base := { empty with side := c, ep := some tgt }
+        let base := (base.put o (some ⟨c, .pawn⟩)).put v (some ⟨c.opp, .pawn⟩)
+        let m : Spec.Move := ⟨o, tgt, none⟩
+        for z in [o, v] do
+          for d in dirs do
+            for i in [1:8] do
+              for j in [1:8] do
+                let sf : Int := z.file + i * d.1
+                let sr : Int := z.rank + i * d.2
+                let kf : Int := (z.file : Int) - j * d.1
+                let kr : Int := (z.rank : Int) - j * d.2
+                if 0 ≤ sf && sf < 8 && 0 ≤ sr && sr < 8 && 0 ≤ kf && kf < 8 && 0 ≤ kr && kr < 8 then
+                  idx := idx + 1
+                  if idx % stride == 0 then
+                    let ssq : Spec.Sq := ⟨sf.toNat, sr.toNat⟩
+                    let ksq : Spec.Sq := ⟨kf.toNat, kr.toNat⟩
+                    let kind : Kind := if d.1 != 0 && d.2 != 0 then (if idx % 2 == 0 then .bishop else .queen)
+                                       else (if idx % 2 == 0 then .rook else .queen)
+                    if (base.at ssq).isNone && (base.at ksq).isNone && ssq != tgt && ksq != tgt then
+                      let P1 := (base.put ssq (some ⟨c, kind⟩)).put ksq (some ⟨c.opp, .king⟩)
+                      -- the mover's own king: first corner square that gives a legal position
+                      for own in [(⟨0, 0⟩ : Spec.Sq), ⟨7, 0⟩, ⟨0, 7⟩, ⟨7, 7⟩, ⟨3, 0⟩, ⟨3, 7⟩] do
+                        if (P1.at own).isNone && own != tgt then
+                          let P := P1.put own (some ⟨c, .king⟩)
+                          let items := emit P m (idx % 7 == 0)
+                          if !items.isEmpty then
+                            out := out ++ items
+                            break
+  return out
+
 def runG {α : Type} (seed : Nat) (g : G α) : α := (g.run ⟨UInt64.ofNat seed⟩).1
